@@ -1374,6 +1374,14 @@ class FakedWBEMConnection(WBEMConnection):
         than a tuple with empty object path
         """
         if objects:
+            # Class-level References/Associators results are
+            # (classpath, class) tuples. As documented for these operations
+            # (and as it is the case with a CIM-XML response), the class
+            # object has its path attribute set to the class path.
+            for obj in objects:
+                if isinstance(obj, tuple) and len(obj) == 2 and \
+                        isinstance(obj[1], CIMClass) and obj[1].path is None:
+                    obj[1].path = obj[0]
             result = [('OBJECTPATH', {}, obj) for obj in objects]
             return self._make_tuple(result)
 
